@@ -23,8 +23,8 @@ func init() {
 	core.Register(&core.Info{
 		ID: "C04", Level: "exploration",
 		Rule: "case = one firmware image written byte by byte (size 4 KiB..4 MiB, random filler, GUIDed table with reset-block and metadata-offset entries in either order between 0..3 foreign entries, metadata header at the start / right before the table / anywhere, reset address from a boundary table) x 2-3 (vCPU count from {1,2,3, the 15 GCE counts, 255, 1000}, product Milan|Genoa) through sev.LaunchDigest (first combination twice) and, for a share of the images, sev.UnsignedSnp (one count or all 15). " +
-			"Section lists: (a) directed enumeration, independent of the seed: malformed operator x variant x boundary position x kind pair x list order (overlap shapes at 0x1000, 0x801000, 0x7ffff000, 0x80000000, 0xff003000, 0xffffe000 and the last page below 4 GiB incl. ranges that end at or beyond 2^32; misaligned address; empty / non-page-multiple length; duplicate CPUID / secrets; missing kind; unknown kind) with well-formed controls (adjacent, gap, last page, address 0, range crossing 4 GiB); (b) random well-formed lists of 3..12 disjoint ranges anywhere in 32 bits; (c) a random well-formed list with one perturbation. Also the repository's 2 MiB example with all 15 counts on both products. " +
-			"Oracle: the image is re-parsed by the model (must equal the generator's spec); accepted (err==nil) => the parsed section list is in none of C04's malformed classes (64-bit arithmetic) and the digest equals the model's PAGE_INFO/SHA-384 chain; both calls agree; image and options unchanged. Rejections are counted, never judged. " +
+			"Section lists: (a) directed enumeration, independent of the seed: malformed operator x variant x boundary position x kind pair x list order (overlap shapes at 0x1000, 0x801000, 0x7ffff000, 0x80000000, 0xff003000, 0xffffe000 and the last page below 4 GiB incl. ranges that end at or beyond 2^32; misaligned address; empty / non-page-multiple length; duplicate CPUID / secrets; missing kind; unknown kind) with well-formed controls (adjacent, gap, last page, address 0, range crossing 4 GiB); (b) random well-formed lists of 3..12 disjoint ranges anywhere in 32 bits; (c) a random well-formed list with one perturbation. Also the repository's 2 MiB example with all 15 counts on both products. (d) concurrent histories: 4|8|16 goroutines released on a barrier, each running 3-6 rounds of pre-drawn calls (both entry points, both products, all vCPU classes) on its own well-formed images, on two images shared by all goroutines and on shared malformed images; every call was also made alone beforehand. " +
+			"Oracle: the image is re-parsed by the model (must equal the generator's spec); accepted (err==nil) => the parsed section list is in none of C04's malformed classes (64-bit arithmetic) and the digest equals the model's PAGE_INFO/SHA-384 chain; both calls agree; image and options unchanged; a concurrent call returns the model's digest, refuses malformed images and equals the same call made alone. Rejections are counted, never judged. " +
 			"non-trivial cell = (entry point, generator class, vCPU class, product, outcome) in which the tool accepted (digest compared) or the image was model-malformed (acceptance decided)",
 		Assumptions: []string{
 			"mandatory kinds are unmeasured (1), secrets (2) and CPUID (3), as the repository's own error texts name them; SVSM-CAA (4) is optional and measured as ZERO pages",
@@ -127,6 +127,8 @@ type wl struct {
 	genoa           int
 	multiPageRom    int
 	apSplit         int // accepted with >1 vCPUs and a reset address whose halves differ
+
+	concCalls, concEqual, concRefused int
 }
 
 func run(c *core.Ctx) {
@@ -136,7 +138,8 @@ func run(c *core.Ctx) {
 	nEx := 2
 	nWf := c.N(900, 14000)
 	nMal := c.N(400, 5400)
-	n := nDir + nEx + nWf + nMal
+	nConc := c.N(8, 64)
+	n := nDir + nEx + nWf + nMal + nConc
 	for i := 0; i < n; i++ {
 		if !c.Mine(i) {
 			continue
@@ -165,6 +168,8 @@ func run(c *core.Ctx) {
 			}
 			w.image(i, r, fmt.Sprintf("wellformed#%d %s", i, layoutClass(secs)), cls, sp, 3, i%4 == 0)
 			c.Count("cases/wellformed", 1)
+		case i >= nDir+nEx+nWf+nMal:
+			w.concurrent(i, r)
 		default:
 			op := randomOps[r.IntN(len(randomOps))]
 			secs := perturb(r, wfLayout(r), op)
@@ -193,6 +198,7 @@ func run(c *core.Ctx) {
 		c.Floor("malformed-class-decided/"+cl, w.classDecided[cl] > 0)
 	}
 	c.Floor("accepted-with->1-vcpus-and-asymmetric-reset-address", w.apSplit > 0)
+	c.Floor("concurrent-family-ran(accepted-equal-and-refusals-observed)", w.concCalls > 0 && w.concEqual > 0 && w.concRefused > 0)
 	c.Floor("accepted-on-genoa", w.genoa > 0)
 	c.Floor("accepted-rom-of->1-page", w.multiPageRom > 0)
 }
